@@ -20,6 +20,13 @@ Fixpoint depends (s : scope) (x : name) : bool :=
 (* observation trees: count, dependency keys if volatile (sorted), waveform id, children *)
 Inductive otree := ONode (count : Z) (vol : option (list name)) (wf : option N) (ch : list otree).
 
+(* what is observed of a model program tree *)
+Fixpoint obs_of (t : prog) : otree :=
+  match t with
+  | Node r _ w ch => ONode (cnt t) (match dep_keys r with Some l => Some (sort_names l) | None => None end) w
+                           (map obs_of ch)
+  end.
+
 Definition map_sigma (sigma : name -> option Z) (mp : list (name * expr)) : name -> option Z :=
   fun x => match lookup x mp with Some e => eval sigma e | None => sigma x end.
 Definition map_delta (delta : name -> bool) (mp : list (name * expr)) : name -> bool :=
@@ -113,3 +120,36 @@ Fixpoint otrees_eqb (x y : list otree) : bool :=
 
 Fixpoint ocounts_pos (t : otree) : bool :=
   match t with ONode c _ _ ch => (0 <? c) && forallb ocounts_pos ch end.
+
+(* ------------------------------------------------------------------------------------------------------------ *)
+(* executable hypotheses of the theorems *)
+(* the update only names parameters that were declared volatile *)
+Definition keys_in (us : list (name * Z)) (V : list name) : bool := forallb (fun kv => mem (fst kv) V) us.
+Fixpoint root_vol_ok (us : list (name * Z)) (s : scope) : bool :=
+  match s with
+  | SDict _ V => keys_in us V
+  | SMapped i _ => root_vol_ok us i
+  | SJoint _ sa _ sb => root_vol_ok us sa && root_vol_ok us sb
+  end.
+
+(* guard_C15_zero_count: every repetition count of the template evaluates to a positive number (nothing is dropped at
+   instantiation; cf. the known finding C15-zero-count-dropped) *)
+Fixpoint allpos (p : pt) (s : scope) : bool :=
+  match p with
+  | PAtom _ => true
+  | PSeq l => forallb (fun q => allpos q s) l
+  | PRep e _ body => match eval (get_param s) e with Some v => (0 <? v) && allpos body s | None => false end
+  | PMap mp body => allpos body (SMapped s mp)
+  end.
+Definition guard_C15_zero_count (p : pt) (vals : list (name * Z)) (V : list name) : bool := allpos p (SDict vals V).
+
+Fixpoint guard_C15_zero_count_seq (p : pt) (vals : list (name * Z)) (V : list name) (ups : list (list (name * Z))) : bool :=
+  guard_C15_zero_count p vals V &&
+  match ups with
+  | [] => true
+  | us :: r => keys_in us V && guard_C15_zero_count_seq p (override us vals) V r
+  end.
+
+Definition update_all (ups : list (list (name * Z))) (t : prog) : prog := fold_left (fun t us => update us t) ups t.
+Definition override_all (ups : list (list (name * Z))) (vals : list (name * Z)) : list (name * Z) :=
+  fold_left (fun v us => override us v) ups vals.
